@@ -21,6 +21,7 @@ import RosuModel.Props.C04
 import RosuModel.Lemmas.DecodedInvFrame
 import RosuModel.Lemmas.DecodedInvAccept
 import RosuModel.Lemmas.DecodedInvReader
+import RosuModel.Model.FloatInst
 namespace Rosu.C04
 open Rosu Encode EncodeLines C05 Scalar DecodedInv
 set_option linter.unusedSectionVars false
@@ -235,6 +236,42 @@ theorem f16_decoded_witness :
 splits key and value): the line below stores the colour under the name `x`. -/
 example : (parseColors Colors.default (str "x//y : 1,2,3")).1 = Colors.default ∧
     (parseColors Colors.default (str "x : 1,2,3 //y")).1.customColors = [⟨str "x", ⟨1, 2, 3, 255⟩⟩] := by decide
+
+/-! ### `ConstFacts` as a boolean check — evaluated on the driver's IEEE instances at build time (a test, NOT a proof) -/
+
+section
+variable {α : Type} [Scalar α]
+
+/-- `InLimit` as the code computes it. -/
+def inLimitB (x : α) : Bool := !lt x (-(maxParseValue : α)) && !lt (maxParseValue : α) x && !isNaN x
+
+theorem inLimit_of_check {x : α} (h : inLimitB x = true) : InLimit x := by
+  simp only [inLimitB, Bool.and_eq_true, Bool.not_eq_true'] at h
+  exact ⟨h.1.1, h.1.2, h.2⟩
+
+end
+
+/-- every clause of `ConstFacts` except `0 = (0 as f64)` (for which equal `total_cmp` keys are tested) as one boolean. -/
+def constFactsB (F P : Type) [Scalar F] [Scalar P] : Bool :=
+  inLimitB (1 : F) && inLimitB (1.4 : F) && inLimitB (0.4 : F) && inLimitB (3.6 : F) && inLimitB (0.5 : F) && inLimitB (8 : F) &&
+  !lt (0.4 : F) (0.4 : F) && !lt (3.6 : F) (0.4 : F) && !lt (3.6 : F) (3.6 : F) &&
+  !lt (0.5 : F) (0.5 : F) && !lt (8 : F) (0.5 : F) && !lt (8 : F) (8 : F) &&
+  !lt (1.4 : F) (0.4 : F) && !lt (3.6 : F) (1.4 : F) && !lt (1 : F) (0.5 : F) && !lt (8 : F) (1 : F) &&
+  inLimitB (5 : P) && inLimitB (0.7 : P) && decide (totalKey (0 : F) = totalKey (Scalar.ofInt 0 : F))
+
+/-- the boolean check implies the facts (given the one equation it can only test through `total_cmp` keys). -/
+theorem constFacts_of_check {F P : Type} [Scalar F] [Scalar P] (h : constFactsB F P = true) (hz : (0 : F) = Scalar.ofInt 0) :
+    ConstFacts F P := by
+  simp only [constFactsB, Bool.and_eq_true, Bool.not_eq_true', decide_eq_true_eq] at h
+  obtain ⟨⟨⟨⟨⟨⟨⟨⟨⟨⟨⟨⟨⟨⟨⟨⟨⟨⟨a1, a2⟩, a3⟩, a4⟩, a5⟩, a6⟩, b1⟩, b2⟩, b3⟩, c1⟩, c2⟩, c3⟩, d1⟩, d2⟩, e1⟩, e2⟩, f1⟩, f2⟩, _⟩ := h
+  exact ⟨inLimit_of_check a1, inLimit_of_check a2, inLimit_of_check a3, inLimit_of_check a4, inLimit_of_check a5,
+    inLimit_of_check a6, ⟨b1, b2, b3⟩, ⟨c1, c2, c3⟩, ⟨d1, d2⟩, ⟨e1, e2⟩, hz, inLimit_of_check f1, inLimit_of_check f2⟩
+
+/- the check evaluates to `true` on the instances the driver runs (`f64` / `f32`) — run by the compiler when this file is
+built; Lean's `Float` is opaque to the kernel, so this is evidence for the hypothesis `ConstFacts Float Float32`, not a proof. -/
+#guard constFactsB Float Float32
+
+example : constFactsB ZC ZC = true := by decide
 
 /-! ### the hypotheses are satisfiable: toy codec, a concrete decoded file -/
 
